@@ -131,12 +131,21 @@ func (c01) Gen(rt *rapid.T, thorough bool) any {
 		n := rapid.IntRange(3, maxEv).Draw(rt, "nev")
 		var evs []C01Ev
 		for i := 0; i < n; i++ {
+			// logger index nl = a registered tag that no configured logger lists: no root is configured,
+			// so the built-in console logger serves it, at every level
 			e := C01Ev{Logger: rapid.IntRange(0, nl-1).Draw(rt, "evlogger"), Kind: rapid.IntRange(0, 14).Draw(rt, "evkind")}
+			if rapid.IntRange(0, 9).Draw(rt, "unmatched") == 0 {
+				e.Logger = nl
+			}
 			if rapid.IntRange(0, 2).Draw(rt, "force_record") == 0 {
 				e.Kind = 14
 			}
 			if e.Kind == 14 {
 				e.Level = rapid.SampledFrom(levelNames).Draw(rt, "evlevel")
+			}
+			if e.Logger == nl {
+				evs = append(evs, e)
+				continue
 			}
 			if lg := s.Sys.Logs[e.Logger]; (lg.Type == "Logger" || lg.Type == "AsyncLogger") && lg.Layout == "" {
 				e.Bare = rapid.IntRange(0, 7).Draw(rt, "bare") == 0
@@ -162,12 +171,14 @@ func (c01) Run(x *Exec, scn any) {
 	o := x.Out
 	x.FS.MkdirAll("/logs")
 	installHooks(true, false, false)
-	tags := make([]*log.Tag, len(s.Sys.Logs))
-	tagNames := make([]string, len(s.Sys.Logs))
+	tags := make([]*log.Tag, len(s.Sys.Logs)+1)
+	tagNames := make([]string, len(s.Sys.Logs)+1)
 	for i := range s.Sys.Logs {
 		tagNames[i] = fmt.Sprintf("tag%d_x", i)
 		tags[i] = log.RegisterTag(tagNames[i])
 	}
+	tagNames[len(s.Sys.Logs)] = "zzun_x"
+	tags[len(s.Sys.Logs)] = log.RegisterTag("zzun_x")
 	cfg := s.Sys.Render()
 	var err error
 	var pv any
@@ -333,6 +344,18 @@ func (c01) Run(x *Exec, scn any) {
 					o.violate("cross-logger", "C01/delivered-to-other-logger", "event %s logged through the tag of logger %d reached %s", id, ev.Logger, sk.name)
 				}
 			}
+		}
+	}
+	for _, e := range all {
+		if !e.Returned || evOf[e.ID].Logger != len(s.Sys.Logs) {
+			continue
+		}
+		code := levelCodes[strings.ToUpper(e.Level)]
+		want := code >= 0 && code < 999
+		if got := stdoutIDs[e.ID]; (want && got != 1) || (!want && got != 0) {
+			o.violate("not-delivered", "C01/unlisted-tag-not-served-by-the-built-in-logger", "event %s (level %s=%d via %s) was logged through a tag no configured logger lists (no root configured): the built-in console logger serves it, expected %v, found %d lines", e.ID, e.Level, code, entryNames[evOf[e.ID].Kind], want, got)
+		} else if want {
+			delivered++
 		}
 	}
 	o.Reached = delivered > 0 && filtered > 0
